@@ -310,3 +310,14 @@ Example c12_ex_numeric :
   expand_positional (mkLayout [false; true; true] 2 true false) [[50; 7; 100]; [60; 3; 101]] 2
   = Ok (mkExpanded [50; 7; 100; 3; 101] 2 [2; 3; 4; 5] []).
 Proof. vm_compute. reflexivity. Qed.
+Example c12_ex_wf_layout : wf_layout (mkLayout [false; true; true] 2 true false) [[50; 7; 100]; [60; 3; 101]].
+Proof. split; [repeat constructor|reflexivity]. Qed.
+(* the guard of the property theorem holds, e.g., whenever nothing is bound outside VALUES *)
+Example c12_ex_uniform_ext : uniform_ext (ext_of [true; true]) ex_ps.
+Proof. intros p q _ _. unfold ext_of. destruct p as [i [|a [|b t]]], q as [j [|a' [|b' t']]]; reflexivity. Qed.
+Example c12_ex_sentinel_hyp :
+  sentinel_hyp (sent_of_param [0%nat]) (sent_of_row 1) sort_key (db_row [[1; 0]; [1; 1]; [1; 0]]) (ex_cfg 1 false true) ex_ps.
+Proof. right. left. repeat split. cbn. repeat constructor; cbn; intuition discriminate. Qed.
+(* (the division of the clamp has no guard of its own; a batched statement always has >= 1 VALUES element) *)
+Example c12_ex_clamp_zero_elements : clamp 1000 32700 3 0 = Raise ZeroDivisionError.
+Proof. reflexivity. Qed.
